@@ -51,3 +51,13 @@ BENIGN_FORWARDERS = {
     "core::convert::Into::into": "blanket Into -> From; does not panic",
     "core::convert::From::from": "conversion; does not panic",
 }
+
+# std integer functions that are NOT #[track_caller] but inherit the caller's overflow checks
+# (#[rustc_inherit_overflow_checks], not visible across crates): they panic on overflow in builds with overflow checks.
+import re
+OVERFLOW_INHERITING = re.compile(
+    r"^core::num::<impl [iu](8|16|32|64|128|size)>::"
+    r"(abs|pow|isqrt|ilog|ilog2|ilog10|next_power_of_two|div_euclid|rem_euclid|div_floor|div_ceil|next_multiple_of|midpoint|strict_\w+)$"
+    r"|^core::ops::arith::(Neg::neg|Add::add|Sub::sub|Mul::mul|Div::div|Rem::rem|AddAssign::add_assign|SubAssign::sub_assign|MulAssign::mul_assign)$"
+    r"|^core::iter::traits::iterator::Iterator::(sum|product)$"
+    r"|^core::iter::traits::accum::(Sum|Product)::(sum|product)$")
